@@ -463,6 +463,8 @@ impl FatVolume {
                                 first_dir_block_num = self.cluster_to_block(c);
                                 Some(c)
                             }
+                            // A device error must not look like the end of the directory
+                            Err(Error::DeviceError(e)) => return Err(Error::DeviceError(e)),
                             _ => None,
                         };
                     } else {
@@ -527,6 +529,8 @@ impl FatVolume {
                             first_dir_block_num = self.cluster_to_block(c);
                             Some(c)
                         }
+                        // A device error must not look like the end of the directory
+                        Err(Error::DeviceError(e)) => return Err(Error::DeviceError(e)),
                         _ => None,
                     };
                 }
@@ -733,6 +737,8 @@ impl FatVolume {
                         first_dir_block_num = self.cluster_to_block(n);
                         Some(n)
                     }
+                    // A device error must not look like the end of the directory
+                    Err(Error::DeviceError(e)) => return Err(Error::DeviceError(e)),
                     _ => None,
                 };
             } else {
@@ -779,6 +785,8 @@ impl FatVolume {
             }
             current_cluster = match self.next_cluster(block_cache, cluster) {
                 Ok(n) => Some(n),
+                // A device error must not look like the end of the directory
+                Err(Error::DeviceError(e)) => return Err(Error::DeviceError(e)),
                 _ => None,
             };
         }
@@ -833,6 +841,8 @@ impl FatVolume {
                                 first_dir_block_num = self.cluster_to_block(n);
                                 Some(n)
                             }
+                            // A device error must not look like the end of the directory
+                            Err(Error::DeviceError(e)) => return Err(Error::DeviceError(e)),
                             _ => None,
                         };
                     } else {
@@ -861,6 +871,8 @@ impl FatVolume {
                     }
                     current_cluster = match self.next_cluster(block_cache, cluster) {
                         Ok(n) => Some(n),
+                        // A device error must not look like the end of the directory
+                        Err(Error::DeviceError(e)) => return Err(Error::DeviceError(e)),
                         _ => None,
                     }
                 }
@@ -949,6 +961,8 @@ impl FatVolume {
                                 first_dir_block_num = self.cluster_to_block(n);
                                 Some(n)
                             }
+                            // A device error must not look like the end of the directory
+                            Err(Error::DeviceError(e)) => return Err(Error::DeviceError(e)),
                             _ => None,
                         };
                     } else {
@@ -986,6 +1000,8 @@ impl FatVolume {
                     // Find the next cluster
                     current_cluster = match self.next_cluster(block_cache, cluster) {
                         Ok(n) => Some(n),
+                        // A device error must not look like the end of the directory
+                        Err(Error::DeviceError(e)) => return Err(Error::DeviceError(e)),
                         _ => None,
                     }
                 }
